@@ -544,3 +544,62 @@ Proof.
   intros s S. pose proof (decode_utf8_lossy_spec (utf8_enc s)) as H.
   pose proof (utf8_roundtrip s S) as R. cbn [decode] in R. congruence.
 Qed.
+
+(* ---------- a clean stream fails only in UTF-16LE (bounds D6) ---------- *)
+
+Lemma lines_pure_non_le : forall n e b, enc_is_le e = false -> (length b < n)%nat ->
+  exists ls, lines_pure n e b = IoDone ls.
+Proof.
+  induction n as [|n IH]; intros e b E L; [lia|].
+  cbn [lines_pure]. unfold next_raw. rewrite E. cbn [andb].
+  pose proof (split_line_length LF b) as Hl.
+  destruct (split_line LF b) as [l r]. cbn [fst snd] in Hl.
+  destruct l as [|x t]; [eexists; reflexivity|]. cbn [io_bind].
+  rewrite (decode_dec decode_utf8_lossy_spec). cbn [io_of_outcome io_bind].
+  destruct (IH e r E) as (ls & H); [cbn [length] in Hl; lia|]. rewrite H. cbn [io_bind]. eexists; reflexivity.
+Qed.
+
+(* on a faultless delivery outside the D4 class an error can only come from the
+   UTF-16LE arm (read_exact after a line feed) *)
+Theorem clean_stream_error_only_le : forall b s k,
+  faultless s -> good_start (length b) s = true ->
+  read_all_lines (mk_reader b s) = IoErr k ->
+  fst (from_bom b) = Utf16LE /\ k = UnexpectedEof.
+Proof.
+  intros b s k F G H. rewrite (read_all_lines_faultless decode_utf8_lossy_spec b s F G) in H.
+  unfold decode_stream in H. destruct (Nat.ltb (length b) min_bom_len); [discriminate|].
+  destruct (from_bom b) as [e c] eqn:Hb. cbn [fst].
+  destruct (enc_is_le e) eqn:E.
+  - split; [destruct e; try discriminate; reflexivity|].
+    (* the only error lines_pure can produce is the one of next_raw *)
+    assert (X : forall n b0 k0, lines_pure n Utf16LE b0 = IoErr k0 -> k0 = UnexpectedEof).
+    { induction n as [|n IH]; intros b0 k0 H0; [discriminate|].
+      cbn [lines_pure] in H0. unfold next_raw in H0.
+      destruct (split_line LF b0) as [l r]. destruct l as [|x t]; [discriminate|].
+      destruct (enc_is_le Utf16LE && ends_with_lf (x :: t)).
+      - destruct r as [|y r']; [cbn [io_bind] in H0; congruence|].
+        cbn [io_bind] in H0. rewrite (decode_dec decode_utf8_lossy_spec) in H0. cbn [io_of_outcome io_bind] in H0.
+        destruct (lines_pure n Utf16LE r') eqn:Hr; cbn [io_bind] in H0; try discriminate.
+        inversion H0; subst. exact (IH _ _ Hr).
+      - cbn [io_bind] in H0. rewrite (decode_dec decode_utf8_lossy_spec) in H0. cbn [io_of_outcome io_bind] in H0.
+        destruct (lines_pure n Utf16LE r) eqn:Hr; cbn [io_bind] in H0; try discriminate.
+        inversion H0; subst. exact (IH _ _ Hr). }
+    destruct e; try discriminate. exact (X _ _ _ H).
+  - destruct (lines_pure_non_le (S (length b)) e (skipn c b) E) as (ls & Hl).
+    + rewrite skipn_length. lia.
+    + rewrite Hl in H. discriminate.
+Qed.
+
+(* ---------- BufReader::with_capacity(c, _) for c >= 3 ---------- *)
+
+Lemma faultless_repeat_chunk : forall c n, faultless (repeat (Chunk c) n).
+Proof. intros c n k Hin. apply repeat_spec in Hin. discriminate. Qed.
+
+Theorem bufreader_capacity_ge3 : forall b c n, (3 <= Pos.to_nat c)%nat ->
+  read_all_lines (mk_reader b (repeat (Chunk c) n)) = decode_stream b.
+Proof.
+  intros b c n H. apply (read_all_lines_faultless decode_utf8_lossy_spec).
+  - apply faultless_repeat_chunk.
+  - destruct n as [|n]; [reflexivity|]. cbn [repeat good_start]. rewrite min_bom_len_3.
+    apply Bool.orb_true_iff. left. apply Nat.leb_le. exact H.
+Qed.
